@@ -189,6 +189,23 @@ def run(chk):
             d = core.describe(prog, he, t["args"][0])
             ok = desc_contains(d, lambda y: y[0] == "call" and y[1].endswith("DerefMut>::deref_mut")) and desc_contains(d, lambda y: y[0] == "call" and y[1].endswith("EqMutex::<T>::lock"))
             chk.ob("R4.lock", PH, "select_target is called through the mutex guard", ok, f"receiver {core.short(str(d))[:100]}", where=he.where(blk))
+    # ---- R5 the rotation advances once per proxied request, not per request seen
+    hb = prog.bodies.get(PH)
+    if hb:
+        sel_b = [blk for blk, t in hb.calls_to(r"LoadBalancer::select_target$")]
+        prx = [blk for blk, t in hb.calls_to(r"proxy::proxy_request$")]
+        gw = [blk for blk, t in hb.calls_to(r"Response::empty$") if core.is_variant(core.describe(prog, hb, t["args"][0]), "StatusCode", "BadGateway")]
+        for sb in sel_b:
+            w = core.must_pass(hb, [sb], core.return_blocks(hb), through_nodes=prx + gw)
+            chk.ob("R5.rotation_per_proxied", PH, "a target is selected only for a request that is then relayed to it or answered 502 for it (select_target -> every return passes proxy_request / 502)", w is None and bool(prx),
+                   "select_target also runs for requests that are answered without being relayed (e.g. 403): the rotation skips a target", where=hb.where(sb), path=w)
+        for pb in prx:
+            w = core.must_pass(hb, [0], [pb], through_nodes=sel_b, after_from=False)
+            chk.ob("R5.rotation_per_proxied", PH, "every relayed request selected its target first", w is None and bool(sel_b), "", where=hb.where(pb), path=w)
+            dt = core.describe(prog, hb, hb.term(pb)["args"][1]) if len(hb.term(pb)["args"]) > 1 else None
+            allargs = [core.describe(prog, hb, a) for a in hb.term(pb)["args"]]
+            chk.ob("R5.rotation_per_proxied", PH, "the request is relayed to the selected target", any(desc_contains(a, lambda y: y[0] == "call" and y[1].endswith("select_target")) for a in allargs),
+                   f"{[core.short(str(a))[:60] for a in allargs]}", where=hb.where(pb))
     # ---- R5 rotation
     st = prog.bodies.get("humphrey_server::server::proxy::LoadBalancer::select_target")
     chk.floor("select_target", 1 if st else 0, 1)
